@@ -80,8 +80,13 @@ func (fc *fctx) callLocal(n ast.Node, q string, args []string) string {
 
 func (fc *fctx) args(e *ast.CallExpr) []string {
 	var a []string
-	for _, x := range e.Args {
-		a = append(a, fc.expr(x))
+	sig, _ := fc.t.info.TypeOf(e.Fun).(*types.Signature)
+	for i, x := range e.Args {
+		v := fc.expr(x)
+		if sig != nil && i < sig.Params().Len() && fc.t.kindOf(sig.Params().At(i).Type()) == kSuiteI && fc.kind(x) == kSuite {
+			v = "(Some " + v + ")" // a value stored in the interface
+		}
+		a = append(a, v)
 	}
 	return a
 }
@@ -266,7 +271,7 @@ func (fc *fctx) call(e *ast.CallExpr, nres int) string {
 		// interface dispatch: both implementations are translated and shown equal (see iface lemmas)
 		m := e.Fun.(*ast.SelectorExpr).Sel.Name
 		fc.t.ifaceUsed[m] = true
-		recv := fc.expr(e.Fun.(*ast.SelectorExpr).X)
+		recv := fc.bind("deref " + fc.expr(e.Fun.(*ast.SelectorExpr).X)) // a nil interface: the method call panics
 		return fc.bind(fc.callLocal(e, "SuiteConfig."+m, []string{recv}))
 	}
 	if t.mainMode && strings.HasPrefix(q, "otp.") {
